@@ -81,6 +81,72 @@ Section Request.
   Qed.
 End Request.
 
+(** * the response direction: advance_resp (sameCompression always holds there) *)
+Section Response.
+  (** the client's libraries: its codec's decoder and its decompressor *)
+  Variable msg_of_client : bytes -> option bytes.
+  Variable gunzip_client : bytes -> option bytes.
+  Variable cx : wctx.
+  Hypothesis codec_roundtrip : forall m e, o_encode (w_or cx) m = Some e -> msg_of_client e = Some m.
+  Hypothesis compress_roundtrip : forall b, gunzip_client (o_compress (w_or cx) b) = Some b.
+
+  Definition client_reads (compressed : bool) (payload : bytes) : option bytes :=
+    if compressed then match gunzip_client payload with Some p => msg_of_client p | None => None end
+    else msg_of_client payload.
+
+  Definition backend_meant (has_comp was_comp : bool) (payload : bytes) : option bytes :=
+    if was_comp && has_comp && negb (Nat.eqb (length payload) 0)
+    then match o_decompress (w_or cx) payload with Some p => o_decode (w_or cx) p | None => None end
+    else o_decode (w_or cx) payload.
+
+  (** a client protocol without envelopes cannot flag single messages: with a response compression
+      declared every message must then be compressed *)
+  Definition resp_must (has_comp : bool) : bool := has_comp && match w_cenv cx with None => true | Some _ => false end.
+
+  Theorem reencoded_response_is_faithful has_comp was_comp payload out :
+    w_same_resp_codec cx = false ->
+    advance_resp cx has_comp was_comp payload = inl out ->
+    exists m, backend_meant has_comp was_comp payload = Some m /\
+              client_reads ((was_comp || resp_must has_comp) && has_comp) out = Some m.
+  Proof.
+    intros Sc H. unfold advance_resp in H. rewrite Sc in H. unfold backend_meant, resp_must.
+    destruct (was_comp && has_comp && negb (Nat.eqb (length payload) 0)).
+    - destruct (o_decompress (w_or cx) payload) as [p|]; [|discriminate].
+      destruct (o_decode (w_or cx) p) as [m|]; [|discriminate]. destruct (o_encode (w_or cx) m) as [e|] eqn:En; [|discriminate].
+      injection H as <-. exists m. split; [reflexivity|]. unfold client_reads.
+      match goal with |- context [if ?b then _ else _] => destruct b end; [rewrite compress_roundtrip|]; eauto.
+    - destruct (o_decode (w_or cx) payload) as [m|]; [|discriminate]. destruct (o_encode (w_or cx) m) as [e|] eqn:En; [|discriminate].
+      injection H as <-. exists m. split; [reflexivity|]. unfold client_reads.
+      match goal with |- context [if ?b then _ else _] => destruct b end; [rewrite compress_roundtrip|]; eauto.
+  Qed.
+
+  Theorem relayed_response_is_verbatim has_comp was_comp payload out :
+    w_same_resp_codec cx = true -> advance_resp cx has_comp was_comp payload = inl out ->
+    out = payload \/ (was_comp = false /\ resp_must has_comp = true /\ out = o_compress (w_or cx) payload).
+  Proof.
+    intros Sc H. unfold advance_resp in H. rewrite Sc in H. fold (resp_must has_comp) in H.
+    destruct was_comp; cbn [orb] in H; [injection H as <-; left; reflexivity|].
+    destruct (resp_must has_comp); cbn [negb] in H; injection H as <-; auto.
+  Qed.
+
+  Theorem response_failure_is_an_error has_comp was_comp payload e :
+    advance_resp cx has_comp was_comp payload = inr e ->
+    w_same_resp_codec cx = false /\
+    (o_decompress (w_or cx) payload = None \/
+     exists p, (p = payload \/ o_decompress (w_or cx) payload = Some p) /\
+               (o_decode (w_or cx) p = None \/ exists m, o_decode (w_or cx) p = Some m /\ o_encode (w_or cx) m = None)).
+  Proof.
+    intros H. unfold advance_resp in H. destruct (w_same_resp_codec cx).
+    { destruct (was_comp || negb _); discriminate. }
+    split; [reflexivity|].
+    destruct (was_comp && has_comp && negb (Nat.eqb (length payload) 0)).
+    - destruct (o_decompress (w_or cx) payload) as [p|] eqn:D; [|left; reflexivity]. right. exists p. split; [right; reflexivity|].
+      destruct (o_decode (w_or cx) p) as [m|] eqn:Dc; [|left; reflexivity]. destruct (o_encode (w_or cx) m) eqn:En; [discriminate|]. right. eauto.
+    - right. exists payload. split; [left; reflexivity|].
+      destruct (o_decode (w_or cx) payload) as [m|] eqn:Dc; [|left; reflexivity]. destruct (o_encode (w_or cx) m) eqn:En; [discriminate|]. right. eauto.
+  Qed.
+End Response.
+
 (** * progress: a complete response message is written and flushed before Write returns *)
 Lemma tw_flush_message_progress cx c w c' w' :
   e_trailer (tw_latest w) = false -> emih cx = false -> c_buf c = None ->
